@@ -47,6 +47,7 @@ def observe(case):
     try:
         rows = {r: htaio.rows_of(ta.t, r) for r in ta.t.get_ranks()}
         canon: Dict[str, Any] = {}
+        extra: Dict[str, Any] = {}
         try:
             from hta.common.trace_call_graph import CallGraph
             cg = CallGraph(ta.t)
@@ -57,10 +58,27 @@ def observe(case):
                     p = htaio._i(rec[1])
                     out.append([htaio._i(rec[0]), -1 if p < 0 else p] + [C.num(v) for v in rec[2:]])
                 canon[r] = sorted(out)
+            # the second observation point: CallGraph.get_stack_of_node for a sample of nodes, the ranks asked in
+            # alternation (the object caches the rank it answered last)
+            stacks = []
+            picks = []
+            for r in ta.t.get_ranks():
+                ids = [x[0] for x in canon[r] if x[2] >= 0]
+                step = max(1, len(ids) // 6)
+                picks.append([(r, i) for i in ids[::step][:7]])
+            order = [p for grp in zip(*[g + [None] * (7 - len(g)) for g in picks]) for p in grp if p is not None]
+            for k, (r, i) in enumerate(order):
+                skip = k % 3 == 1
+                try:
+                    st = cg.get_stack_of_node(i, rank=r, skip_ancestors=skip)
+                    stacks.append([r, i, skip, sorted(int(v) for v in st["index"])])
+                except Exception as e:  # noqa: BLE001
+                    stacks.append([r, i, skip, "raises " + C.exc_name(e) + ": " + str(e)[:80]])
+            extra["stacks"] = stacks
         except Exception as e:  # noqa: BLE001
             import traceback
             canon = {"raises": C.exc_name(e) + ": " + str(e)[:120] + " @ " + traceback.format_exc().splitlines()[-3].strip()[:80]}
-        return {"rows": rows, "canon": canon}
+        return {"rows": rows, "canon": canon, "key": extra.get("stacks"), "stacks": extra.get("stacks", [])}
     finally:
         htaio.remove_case_dir(files)
 
@@ -90,6 +108,35 @@ def oracle(case, obs) -> List[str]:
     if "raises" in c:
         return [f"call graph construction raised {c['raises']}"]
     out = []
+    for r, i, skip, st in obs.get("stacks") or []:
+        got = {x[0]: x for x in c[r]}
+        by = {x[0]: x for x in obs["rows"][r]}
+        par = {k: g[1] for k, g in got.items() if g[2] >= 0}
+        kids: Dict[int, List[int]] = {}
+        for k, p in par.items():
+            kids.setdefault(p, []).append(k)
+
+        def below(k, seen):
+            res = []
+            for ch in kids.get(k, []):
+                if ch not in seen:
+                    seen.add(ch)
+                    res += [ch] + below(ch, seen)
+            return res
+
+        def above(k):
+            res, seen = [], {k}
+            while par.get(k, -1) >= 0 and par[k] not in seen:
+                k = par[k]
+                seen.add(k)
+                res.append(k)
+            return res
+        if by[i][5] > 0:
+            exp = sorted({i} | (set() if skip else set(above(i))))
+        else:
+            exp = sorted({i} | set(below(i, {i})) | (set() if skip else set(above(i))))
+        if st != exp:
+            out.append(f"rank {r}: get_stack_of_node({i}, skip_ancestors={skip}) gives {st if isinstance(st, str) else st[:12]}, the tree gives {exp[:12]}")
     for r, rows in obs["rows"].items():
         by = {x[0]: x for x in rows}
         got = {x[0]: x for x in c[r]}
@@ -169,6 +216,8 @@ def features(case, obs):
         f["max_height"] = max([x[3] for v in c.values() for x in v] + [0])
         f["bwd_attached"] = int(bool(case["cfg"].get("bwd")))
         f["two_threads"] = int(bool(case["cfg"].get("two_threads")))
+        f["stack_queries"] = len(obs.get("stacks") or [])
+        f["stack_queries_with_ancestors_and_descendants"] = sum(1 for q in (obs.get("stacks") or []) if not isinstance(q[3], str) and len(q[3]) >= 3)
     return f
 
 
